@@ -119,6 +119,11 @@ func beginsWith(args ...Object) Object {
 	path := args[0]
 	substr := args[1]
 
+	// an attribute the item does not have begins with nothing
+	if isUndefined(path) {
+		return FALSE
+	}
+
 	if path.Type() == ObjectTypeString {
 		if substr.Type() != ObjectTypeString {
 			return newError("invalid substr type %s", substr.Type())
@@ -144,6 +149,11 @@ func beginsWith(args ...Object) Object {
 func contains(args ...Object) Object {
 	path := args[0]
 	operand := args[1]
+
+	// an attribute the item does not have contains nothing
+	if isUndefined(path) {
+		return FALSE
+	}
 
 	container, ok := path.(ContainerObject)
 	if !ok {
